@@ -12,7 +12,8 @@ Event log (a list of tuples; the position in the list is the global sequence num
   ("step", tid, step, pc, time, value)             a step of generator `tid` starts; value = what the yield returned
   ("req", tid, step, pc, time, op)                 the step ends by yielding `op` (the effective op record)
   ("end", tid, step, time, how)                    the step ends the generator: exit | raise | ret | uncaught
-  ("act", tid, step, time, kind, arg, effective)   in-step action: busy | wake | cancel | mktimer
+  ("act", tid, step, time, kind, arg, effective)   in-step action: busy | wake | cancel | mktimer | starttimer | rewake
+                                                   (rewake = schedule() of an already scheduled task; effective = "<state>:<path>")
   ("tnew", i, time)  ("tstart", i, time)  ("tcancel", i, time)  ("fire", i, k, time, ret)
                                                    tnew = Timer constructed, tstart = Timer.start() (the same instant unless started=False)
   ("sel", t_from, t_to, why)                       one virtual select: ready | advance | quiesce | horizon
@@ -102,25 +103,37 @@ class VPinger(object):
 
 
 class VFd(object):
-  """A pollable fake descriptor: readable from r_at on, writable from w_at on (absolute; None = never)."""
+  """A pollable fake descriptor: readable from r_at on, writable from w_at on (absolute; None = never).
 
-  def __init__(self, label, fileno, r_at, w_at):
+  hup_at: the instant the other end goes away.  hup_kind "hup" = a hang-up (the read end of a pipe whose writer closed it:
+  poll() reports POLLHUP, select() reports the descriptor readable); "err" = an error / reset (POLLERR|POLLHUP: select()
+  reports it readable and writable).  The kernel reports POLLHUP / POLLERR whether or not they were asked for."""
+
+  def __init__(self, label, fileno, r_at, w_at, hup_at=None, hup_kind="hup"):
     self.label, self._fileno, self.r_at, self.w_at = label, fileno, r_at, w_at
+    self.hup_at, self.hup_kind = hup_at, hup_kind
 
   def fileno(self):
     return self._fileno
 
+  def hung(self, now):
+    return self.hup_at is not None and now >= self.hup_at
+
   def readable(self, now):
-    return self.r_at is not None and now >= self.r_at
+    return (self.r_at is not None and now >= self.r_at) or self.hung(now)
 
   def writable(self, now):
-    return self.w_at is not None and now >= self.w_at
+    return (self.w_at is not None and now >= self.w_at) or (self.hung(now) and self.hup_kind == "err")
+
+  def _next(self, now, ts):
+    ts = [t for t in ts if t is not None and t > now]
+    return min(ts) if ts else None
 
   def next_readable(self, now):
-    return self.r_at if (self.r_at is not None and self.r_at > now) else None
+    return self._next(now, [self.r_at, self.hup_at])
 
   def next_writable(self, now):
-    return self.w_at if (self.w_at is not None and self.w_at > now) else None
+    return self._next(now, [self.w_at, self.hup_at if self.hup_kind == "err" else None])
 
   def __repr__(self):
     return "<%s>" % self.label
@@ -164,6 +177,14 @@ class VSock(VFd):
     now = self._rt.clock.now
     outcome = self.sends.pop(0) if self.sends else "all"
     marker = data[0] if data else None
+    if not data:
+      # an empty buffer offered again and again within ONE request (no step of the sending generator in between) is a spin:
+      # cut the run short instead of burning the whole cycle budget
+      rt = self._rt
+      who = rt.tid_of(rt.sched._ready.last) if getattr(rt.sched._ready, "last", None) is not None else "?"
+      rt.spin[who] = rt.spin.get(who, 0) + 1
+      if rt.spin[who] > 12 and rt.stopped is None:
+        rt._stop("empty-send-spin")
     if outcome == "eagain":
       self._rt.emit(("ssend", self.idx, now, marker, len(data), "eagain"))
       raise BlockingIOError(11, "Resource temporarily unavailable")
@@ -223,11 +244,25 @@ class _FakeEpoll(object):
     if timeout is not None and timeout < 0:
       timeout = None
     ro, wo = rt.wait(robjs, wobjs, timeout)
+    now = rt.clock.now
     ev = {}
     for o in ro:
+      hung = getattr(o, "hung", None)
+      if hung is not None and hung(now) and o.hup_kind == "hup" and not (o.r_at is not None and now >= o.r_at):
+        continue                            # a bare hang-up: no data, so no EPOLLIN (EPOLLHUP is added below)
       ev[o.fileno()] = ev.get(o.fileno(), 0) | S.EPOLLIN
     for o in wo:
       ev[o.fileno()] = ev.get(o.fileno(), 0) | S.EPOLLOUT
+    # what epoll reports without being asked: EPOLLHUP / EPOLLERR of a registered descriptor whose other end went away
+    # (model limit: a bare hang-up is only reported to a registration that includes reading)
+    for o in set(robjs) | set(wobjs):
+      hung = getattr(o, "hung", None)
+      if hung is None or not hung(now):
+        continue
+      if o.hup_kind == "err":
+        ev[o.fileno()] = ev.get(o.fileno(), 0) | S.EPOLLERR | S.EPOLLHUP
+      elif o in robjs:
+        ev[o.fileno()] = ev.get(o.fileno(), 0) | S.EPOLLHUP
     return list(ev.items())
 
   def close(self):
@@ -272,6 +307,8 @@ class Run(object):
     self.H = T0 + float(case.get("horizon", 16))
     self.current = None          # re-entrancy flag: tid whose step is in progress
     self.cur_req = {}            # tid -> effective op of the outstanding request
+    self.cur_pc = {}             # tid -> index of that op in the generator's program
+    self.spin = {}               # tid -> empty buffers offered to a socket since the generator's latest step
     self.woken = {}
     self.due = {}                # tid -> absolute due of an outstanding timed request
     self.tdue = {}               # timer -> latest admissible next due
@@ -328,8 +365,10 @@ class Run(object):
       self.emit(("overlap", "thread:%s" % threading.current_thread().name, tid, self.clock.now))
     prev = self.cur_req.pop(tid, None)
     self.due.pop(tid, None)
+    self.cur_pc.pop(tid, None)
+    self.spin.pop(tid, None)
     if prev is not None and prev["op"] == "acquire" and recv is True:
-      self.holder[prev["lock"]] = tid
+      self.holder[prev["lock"]] = _root(tid)       # a lock taken in a sub-task belongs to the task that called it
     self.emit(("step", tid, step, pc, self.clock.now, recv))
 
   def _end(self, tid, step, how):
@@ -524,15 +563,21 @@ class Run(object):
       yv = self.locks[l].acquire(bool(op.get("blocking", True)))
     elif k == "release":
       l = op.get("lock", 0) % len(self.locks)
-      if self.holder.get(l) != tid:
-        # release whichever lock this generator holds (locks are only released by their holder)
-        mine = [x for x in sorted(self.holder) if self.holder[x] == tid]
+      me = _root(tid)
+      if self.holder.get(l) != me:
+        # release whichever lock this task holds (locks are only released by their holder: the task, or a sub-task on its behalf)
+        mine = [x for x in sorted(self.holder) if self.holder[x] == me]
         if mine:
           l = mine[0]
-      if self.holder.get(l) == tid:
+      if self.holder.get(l) == me:
         eff["lock"] = l
         self.holder[l] = None
         yv = self.locks[l].release()
+      elif "/" in tid:
+        # nothing to release; in a sub-task a bare value would be its return value, so wait for no time instead
+        eff = {"op": "sleep", "n": 0, "was": "release"}
+        yv = R.Sleep(0)
+        due = now
       else:
         eff = {"op": "y0", "was": "release"}
         yv = 0
@@ -550,6 +595,22 @@ class Run(object):
           def execute(op_self, task, scheduler):
             raise OpError("badop:%s/%d" % (tid, pc))
         yv = Failing()
+    elif k == "imm":
+      # a blocking operation that completes at once.  how="reclaim": execute() sets task.rv and returns True ("reclaim running
+      # state", what recoco's own Lock operations do); how="requeue": execute() sets task.rv and re-queues the task (DummyOp)
+      how = "requeue" if op.get("how") == "requeue" else "reclaim"
+      v = op.get("v", "token")
+      val = ["imm", tid, pc] if v == "token" else v
+      eff = {"op": "imm", "how": how, "v": v}
+
+      class Immediate(R.BlockingOperation):
+        def execute(op_self, task, scheduler):
+          task.rv = val
+          if how == "requeue":
+            scheduler.fast_schedule(task)
+            return None
+          return True
+      yv = Immediate()
     elif k == "rfop":
       script = []
       for o in list(op.get("script") or [{"v": "token"}]):
@@ -565,11 +626,16 @@ class Run(object):
       yv = R.Exit()
       self.emit(("quit", tid, now))
       self.stopped = "quit-op"
+    elif "/" in tid:
+      eff = {"op": "sleep", "n": 0, "was": k}
+      yv = R.Sleep(0)
+      due = now
     else:
       # recv/send without sockets, or an unknown op: plain reschedule
       eff = {"op": "y0", "was": k}
       yv = 0
     self.cur_req[tid] = eff
+    self.cur_pc[tid] = pc
     if due is not None:
       self.due[tid] = due
     self.emit(("req", tid, step, pc, now, eff))
@@ -640,6 +706,22 @@ class Run(object):
       ttid = tt.tid
       cur = self.cur_req.get(ttid)
       ok = (ttid != tid and cur is not None and cur["op"] == "block" and not self.woken.get(ttid))
+      # schedule() of a task that is ALREADY scheduled (it sits in the ready queue because it yielded 0, or because it was
+      # woken and has not run yet): documented as harmless -- "this method will not schedule a task to run multiple times".
+      # The same-thread path checks at once.  The other path checks when its ScheduleTask runs, i.e. after one more step of
+      # the target: only used when that step is known to end in another `yield 0` (the target is then in the queue again).
+      state = None
+      if not ok and ttid != tid and cur is not None:
+        if cur["op"] == "y0":
+          state = "yielded-0"
+        elif cur["op"] == "block" and self.woken.get(ttid):
+          state = "woken-not-yet-run"
+      if state is not None:
+        direct = self.R.threading.current_thread() is self.sched._thread
+        if direct or self._next_yield_is_y0(ttid):
+          self.emit(("act", tid, step, now, "rewake", ttid, state + (":direct" if direct else ":deferred")))
+          self.sched.schedule(tt)
+          return
       self.emit(("act", tid, step, now, "wake", ttid, bool(ok)))
       if ok:
         self.woken[ttid] = True
@@ -665,6 +747,19 @@ class Run(object):
       self.emit(("act", tid, step, now, "starttimer", i, bool(ok)))
       if ok:
         self._start_timer(i)
+
+  def _next_yield_is_y0(self, ttid):
+    """Does the step after the outstanding request of top-level task `ttid` end in a plain `yield 0`?"""
+    prog = self.case["tasks"][int(ttid[1:])].get("prog", [])
+    pc = self.cur_pc.get(ttid)
+    if pc is None:
+      return False
+    pc += 1
+    while pc < len(prog) and prog[pc]["op"] in ACTIONS:
+      if prog[pc]["op"] == "busy":
+        return False           # (in the threaded mode a busy step lets other threads run: keep the claim simple)
+      pc += 1
+    return pc < len(prog) and prog[pc]["op"] == "y0"
 
   # ------------------------------------------------------------------ timers
   def _cancel(self, i):
@@ -861,7 +956,8 @@ class Run(object):
     for i, f in enumerate(case.get("fds", [])):
       r_at = None if f.get("r_at") is None else T0 + f["r_at"]
       w_at = None if f.get("w_at") is None else T0 + f["w_at"]
-      self.fds.append(VFd("f%d" % i, 700000 + i, r_at, w_at))
+      hup_at = None if f.get("hup_at") is None else T0 + f["hup_at"]
+      self.fds.append(VFd("f%d" % i, 700000 + i, r_at, w_at, hup_at, "err" if f.get("hup_kind") == "err" else "hup"))
     self.socks = []
     for i, s in enumerate(case.get("socks", [])):
       arr = [[T0 + a[0], bytes([0x41 + ((i * 16 + j) % 26)]) * int(a[1])] for j, a in enumerate(s.get("arrivals", []))]
@@ -1043,6 +1139,10 @@ class Run(object):
         j += 1
       self.emit(("killed", _kill_name(m.group(1)), bool(m.group(2)), last[:200]))
       i = j
+
+
+def _root(tid):
+  return tid.split("/", 1)[0]
 
 
 def _count_ops(prog):
